@@ -227,6 +227,15 @@ type OptColl struct {
 	Z  int64
 }
 
+// RawOptB: optional and nullable Bytes fields bound to a plain []byte (a slice is nilable, so bindnode
+// asks for no pointer): nil stands for absent / null, an empty non-nil slice is a present empty value.
+type RawOptB struct {
+	A []byte
+	B []byte
+	C []byte
+	Z int64
+}
+
 // Conv: fields of Go types the schema knows as Int, String and Bytes through custom converters
 // (bindnode.Typed*Converter options given to every binding call).
 type Celsius struct{ Milli int64 }
@@ -370,6 +379,7 @@ type OptV struct { A optional String  L [Int]  M OMap }
 type MapOpt {String:OptV}
 type HasMapOpt struct { M MapOpt }
 type OptColl struct { L optional StrList  B nullable Bytes  M optional OMap  NL nullable IntList  OB optional Bytes  Z Int }
+type RawOptB struct { A optional Bytes  B nullable Bytes  C Bytes  Z Int }
 type Conv struct { T Int  OT optional Int  NT nullable Int  G String  B Bytes  L [Int] }
 type OptS struct { A optional String  C String }
 type OptT struct { X Int  Y optional Int } representation tuple
@@ -592,6 +602,12 @@ var vocab = []vtype{
 		vals: []func() interface{}{
 			func() interface{} { return wideVal(1) },
 			func() interface{} { return wideVal(-3) },
+		}},
+	{name: "RawOptB", schema: "RawOptB", ptr: func() interface{} { return (*RawOptB)(nil) },
+		vals: []func() interface{}{
+			func() interface{} { return &RawOptB{A: []byte{}, B: []byte{}, C: []byte{}, Z: 1} },
+			func() interface{} { return &RawOptB{C: []byte{}, Z: 2} },
+			func() interface{} { return &RawOptB{A: []byte{0}, B: []byte{0x62}, C: []byte{1, 2}, Z: 3} },
 		}},
 	{name: "OptColl", schema: "OptColl", ptr: func() interface{} { return (*OptColl)(nil) },
 		vals: []func() interface{}{
